@@ -123,6 +123,10 @@ def install(E):
     from . import nnmodel
 
     nnmodel.install(E)
+    npm = Namespace("numpy")
+    E.ext_modules["numpy"] = npm
+    for n_ in ("uint8", "uint16", "int16", "int32", "int8"):
+        npm.entries[n_] = DT[n_]
     # other python modules
     numbers = Namespace("numbers")
     E.ext_modules["numbers"] = numbers
